@@ -89,11 +89,12 @@ example : (outcome .recPermute ⟨[(.rv, [1, 2, 3])], [2, 0, 1]⟩).res = [(3, t
 /-- `map_optional` is a filter: it is not among the keepers -/
 example : keeps .mapOptional ⟨[(.rv, [1, 2])], [1, 0]⟩ 0 = false := by decide
 
-/-! ## refuted: the three repaired defects, each against the operation as it is now
+/-! ## refuted: the four repaired defects, each against the operation as it is now
 
 * `either::bind` before fix f5622af copied the failure of an rvalue either (`oldEithBindFailure`);
 * the `options::flag` constructor before fix 986d19b compared its arguments after moving from them (`oldOptsFlag`);
-* `optional::to_container` before fix 9030486 moved the element out of an lvalue optional (`oldOptToContainer`).
+* `optional::to_container` before fix 9030486 moved the element out of an lvalue optional (`oldOptToContainer`);
+* `parse::repetition_plus` before fix aef45df copied its first result through an initializer_list (`oldParseRepPlus`).
 -/
 
 /-- old `either::bind`, rvalue either holding a failure: the failure is copied -/
@@ -118,6 +119,14 @@ example : ¬ (runOn ⟨[(.lv, [1])], []⟩ (oldOptToContainer 1)).LvalueUnchange
   exact absurd (h 0 .lv (by decide) (Or.inl rfl)) (by decide)
 /-- now the element is copied and the argument keeps it -/
 example : (outcome .optToContainer ⟨[(.lv, [1])], []⟩).outs = [[(1, true)]] ∧ (outcome .optToContainer ⟨[(.lv, [1])], []⟩).cp = [1] := by
+  decide
+
+/-- old `parse::repetition_plus` (before fix aef45df), the sub-results seen as an rvalue argument: the first one is copied -/
+example : ¬ (runOn ⟨[(.rv, [1, 2, 3])], []⟩ (oldParseRepPlus 3)).NoCopyOfRvalue := by
+  intro h
+  exact h 0 (by decide) 1 (by decide) (by decide)
+/-- now every result is moved: nothing is copied -/
+example : (outcome .parseRepPlus ⟨[], [3]⟩).cp = [] ∧ (outcome .parseRepPlus ⟨[], [3]⟩).res = [(1000, true), (1001, true), (1002, true)] := by
   decide
 
 /-! ## refuted: what else the conservation predicates exclude -/
